@@ -2,6 +2,7 @@ SPECIFICATION Spec
 CONSTANTS
   Universe = "T"
   Known <- KnownC04
+  Slice = 0
 INVARIANT GenInv
 INVARIANT Laws
 CHECK_DEADLOCK FALSE
